@@ -33,6 +33,8 @@ def load(seeded: bool):
             meta = json.loads((d / "meta.json").read_text())
             if meta.get("obsolete"):
                 continue  # made harmless by a later repair of the repository (reason in meta.json)
+            if meta.get("out_of_domain"):
+                continue  # needs an input that no generator produces on purpose (reason in meta.json)
             items.append((d.name, d / "patch.diff", meta.get("expect_checks") or [meta["property"]], meta.get("needs", "")))
     return items
 
